@@ -146,7 +146,10 @@ func init() {
 			}
 			// the same expression evaluated in a nested context (function body, computed value, template block, a second read on
 			// the same VM): value, bracket and generator use are those of the bare expression
+			wrapped := true
 			switch r.intn(9) {
+			default:
+				wrapped = false
 			case 0:
 				txt = "func w9(n9) { return " + txt + " }; w9(3)"
 			case 1:
@@ -157,7 +160,7 @@ func init() {
 				txt = "&cv9 = " + txt + "; func w9() { return cv9 }; w9()"
 			}
 			hi, lo := r.u64(), r.u64()
-			row := map[string]any{"expr": e, "text": txt, "hi": u(hi), "lo": u(lo)}
+			row := map[string]any{"expr": e, "text": txt, "hi": u(hi), "lo": u(lo), "wrapped": wrapped}
 			for _, mode := range []int{-1, 0, 1} {
 				c := allOn()
 				c.Mode = mode
